@@ -126,6 +126,19 @@ def run_case(case, rec, ctx):
                                                              "kinematic_variables": [str(k) for k in model.kinematic_variables][:12]})
     if case["numeric"] and not (cfg["align"] == "axisangle" and C.axis_angle_terms(reaction) > 300):
         judge_evaluable(rec, model, feats, rng, ctx["label"])
+    # builder history: the same builder is re-configured and formulates again (twice); the post-condition judges every model,
+    # so state carried from one formulate() call to the next (memoised lineshapes, registered topologies, ...) shows up here
+    if case["idx"] % 2 == 0 and cfg["align"] != "axisangle" and len(model.amplitudes) <= 60:
+        ctx["label"] = ctx["label"] + " [re-formulated on the same builder]"
+        ctx["feats"] = {**feats, "reformulated": True}
+        try:
+            b.config.scalar_initial_state_mass = not b.config.scalar_initial_state_mass
+            rec.hit("history:reformulate")
+            b.formulate()
+            b.config.use_helicity_couplings = not b.config.use_helicity_couplings
+            b.formulate()
+        except Exception:  # noqa: BLE001, S110  (reported by the on_raise monitor of formulate)
+            pass
 
 
 META = {
